@@ -193,9 +193,11 @@ def sp2(prog, fns, leaky):
         if not f.unit.endswith("-lib.json"):
             continue
         o = outer(prog, f)
-        if "repr::bdd" not in f.npath and "decision_nnf" not in f.npath and not (sdd_short and "repr::sdd" in f.npath):
-            continue
         te = f.terms
+        # a BDD traversal wherever it lives: it marks BddPtr nodes (BddPtr::clear_scratch short-circuits)
+        marks_bdd = any(cs.callee.name in SETTERS and "BddPtr" in (cs.callee.res or cs.callee.def_ or cs.callee.key()) for cs in te.calls)
+        if not marks_bdd and "repr::bdd" not in f.npath and "decision_nnf" not in f.npath and not (sdd_short and "repr::sdd" in f.npath):
+            continue
         cfg = f.cfg
         # recursive descents: calls to the enclosing named traversal function (or itself)
         family = {o.npath, f.npath}
